@@ -11,7 +11,10 @@
 // (d) C15  GET /metrics at the quiescent end agrees with what the clients sent and were told
 // and: the documented gRPC schema next to the other clients on one bucket (a3), the process frozen with SIGSTOP
 // while requests are in flight (a4), deeply nested RESP frames (c0), replies in front of a rejected frame (c1),
-// 600 stalled connections per port (c2); one extra instance of a DEBUG build when $TCV_SERVER_BIN_DEBUG is set.
+// 600 stalled connections per port (c2); one extra instance of a DEBUG build when $TCV_SERVER_BIN_DEBUG is set;
+// (f) the protocol-features phase of feat.rs on every instance; (g) lifecycle and configuration next to the ordinary
+// instances: partial transport sets, store tuning flags, THROTTLECRAB_* variables, scrapes in quick succession, a
+// tracker larger than the store, tracking switched off, and a SIGTERM under load at the end of each of these processes.
 // The server's --log-level is error | info | debug per instance (seed-chosen): argument formatting inside
 // `tracing::debug!` only runs at debug level.
 use crate::cmd::hostile_keys;
@@ -760,6 +763,35 @@ async fn expect_counters(cx: &mut Cx, what: &str, from: usize, out: &mut Out) {
     if errors != t.errors {
         out.violation("C15", format!("{what}: requests_errors = {errors} but the clients saw {} internal errors (HTTP 500 / gRPC status)", t.errors), cx.tail(from));
     }
+}
+
+// ----------------------------------------------------------------------------------------
+// (f) C12 / C09 / C10 / C11 / C15: the protocol-features phase (feat.rs)
+// ----------------------------------------------------------------------------------------
+async fn protocol_features(cx: &mut Cx, inst: usize, n: usize, out: &mut Out) {
+    let from = cx.log.len();
+    expect_counters(cx, "before the protocol-features phase", from, out).await;
+    let mut fx = crate::feat::Fx::new(cx.ports, cx.rng.fork(), false, format!("bin{inst}_ft_"), cx.launch.clone());
+    fx.empty_key = true;
+    fx.round = inst;
+    // (the gRPC deadlines at volume: on every third instance)
+    fx.heavy = inst % 3 == 0;
+    fx.run_all(out, (n / 60).max(1)).await;
+    // what the phase told its clients goes into the instance's tally (discrepancies were reported by the phase itself)
+    let m = fx.moved();
+    cx.tally.http += m.http;
+    cx.tally.grpc += m.grpc;
+    cx.tally.resp += m.resp;
+    cx.tally.denied += m.denied;
+    cx.tally.errors += m.errors;
+    cx.tally.sent_http += fx.sent[Proto::Http as usize];
+    cx.tally.sent_grpc += fx.sent[Proto::Grpc as usize];
+    cx.tally.sent_resp += fx.sent[Proto::Resp as usize];
+    cx.tally.ans_denied += fx.denials.len() as u64;
+    for k in &fx.denials {
+        *cx.denied_keys.entry(k.clone()).or_insert(0) += 1;
+    }
+    cx.log.push(format!("protocol-features phase: {} HTTP, {} gRPC, {} RESP requests; counters moved by http +{} grpc +{} redis +{} denied +{} errors +{}", fx.sent[0], fx.sent[1], fx.sent[2], m.http, m.grpc, m.resp, m.denied, m.errors));
 }
 
 // ----------------------------------------------------------------------------------------
@@ -1662,6 +1694,810 @@ async fn launch(bin: &str, extra: &[&str], out: &mut Out) -> Option<(ChildGuard,
     None
 }
 
+// ----------------------------------------------------------------------------------------
+// (g) process lifecycle and configuration: partial transport sets, store tuning flags, environment variables, SIGTERM
+// ----------------------------------------------------------------------------------------
+/// `--store-cleanup-interval` -> `THROTTLECRAB_STORE_CLEANUP_INTERVAL`
+fn env_name(flag: &str) -> String {
+    format!("THROTTLECRAB_{}", flag.trim_start_matches('-').replace('-', "_").to_ascii_uppercase())
+}
+
+const TRANSPORT_NAMES: [&str; 3] = ["http", "grpc", "redis"];
+
+/// Start the binary with the transports `enabled` (host and port of ALL three are configured, so that the port a
+/// disabled transport would use is known) and the options `opts` (flag, value), given on the command line or - `via_env`
+/// - through `THROTTLECRAB_*` variables.  `decoy`: the environment names ANOTHER free port for every transport while the
+/// command line names the real one (documented: the command line wins).  Waits until the enabled ports accept.
+async fn launch_custom(bin: &str, enabled: [bool; 3], opts: &[(String, String)], via_env: bool, decoy: bool, out: &mut Out) -> Option<(ChildGuard, Ports, String)> {
+    let mut last = String::new();
+    for _attempt in 0..3 {
+        let ports = free_ports();
+        let plist = [ports.http, ports.grpc, ports.resp];
+        let mut args: Vec<String> = vec![];
+        let mut envs: Vec<(String, String)> = vec![];
+        let decoys = free_ports();
+        let dlist = [decoys.http, decoys.grpc, decoys.resp];
+        for i in 0..3 {
+            let t = TRANSPORT_NAMES[i];
+            let mut put = |flag: String, value: Option<String>, force_cli: bool| {
+                if via_env && !force_cli {
+                    envs.push((env_name(&flag), value.unwrap_or("true".into())));
+                } else {
+                    args.push(flag);
+                    if let Some(v) = value {
+                        args.push(v);
+                    }
+                }
+            };
+            if enabled[i] {
+                put(format!("--{t}"), None, false);
+            }
+            put(format!("--{t}-host"), Some("127.0.0.1".into()), false);
+            put(format!("--{t}-port"), Some(plist[i].to_string()), decoy);
+            if decoy {
+                envs.push((env_name(&format!("--{t}-port")), dlist[i].to_string()));
+            }
+        }
+        for (flag, value) in opts {
+            if via_env {
+                envs.push((env_name(flag), value.clone()));
+            } else {
+                args.push(flag.clone());
+                args.push(value.clone());
+            }
+        }
+        let launch = format!("{}{bin} {}", envs.iter().map(|(k, v)| format!("{k}={v} ")).collect::<String>(), args.join(" "));
+        let mut cmd = Command::new(bin);
+        cmd.args(&args).stdin(Stdio::null()).stdout(Stdio::null()).stderr(Stdio::null());
+        for (k, _) in std::env::vars_os() {
+            let ks = k.to_string_lossy();
+            if ks.starts_with("THROTTLECRAB_") || ks == "RUST_LOG" {
+                cmd.env_remove(&k);
+            }
+        }
+        for (k, v) in &envs {
+            cmd.env(k, v);
+        }
+        let mut child = match cmd.spawn() {
+            Ok(c) => ChildGuard(Some(c)),
+            Err(e) => {
+                out.violation("C09", format!("binary did not start: spawn failed: {e}"), vec![format!("# {launch}")]);
+                return None;
+            }
+        };
+        let deadline = Instant::now() + Duration::from_secs(10);
+        let mut up = [false; 3];
+        let failed = loop {
+            for i in 0..3 {
+                if enabled[i] && !up[i] {
+                    if let Ok(s) = TcpStream::connect(("127.0.0.1", plist[i])).await {
+                        drop(s);
+                        up[i] = true;
+                    }
+                }
+            }
+            if let Some(st) = child.exited() {
+                break Some(format!("binary did not start: the process ended during start-up ({st})"));
+            }
+            if (0..3).all(|i| up[i] || !enabled[i]) {
+                break None;
+            }
+            if Instant::now() >= deadline {
+                break Some(format!("binary did not start: enabled (http, grpc, redis) = {enabled:?}, ports accepting after 10 s: {up:?}"));
+            }
+            tokio::time::sleep(Duration::from_millis(10)).await;
+        };
+        match failed {
+            None => {
+                tokio::time::sleep(Duration::from_millis(30)).await;
+                if child.exited().is_none() {
+                    // the decoy ports are nobody's
+                    if decoy {
+                        for i in 0..3 {
+                            if TcpStream::connect(("127.0.0.1", dlist[i])).await.is_ok() {
+                                out.violation("C09", format!("the environment names port {} for the {} transport, the command line port {}: the command line wins (documented), but the port from the environment accepts connections", dlist[i], TRANSPORT_NAMES[i], plist[i]), vec![format!("# {launch}")]);
+                            }
+                        }
+                    }
+                    return Some((child, ports, launch));
+                }
+                last = format!("binary did not start: the process ended during start-up\n# {launch}");
+                out.bump("launch_retries");
+            }
+            Some(why) => {
+                last = format!("{why}\n# {launch}");
+                out.bump("launch_retries");
+            }
+        }
+    }
+    let (why, launch) = last.split_once('\n').unwrap_or((&last, ""));
+    out.violation("C09", format!("{why} (3 attempts on different ports)"), vec![launch.to_string()]);
+    None
+}
+
+/// one request by a simple client (new connection) over `proto`
+async fn simple_request(ports: &Ports, rng: &mut Rng, proto: Proto, l: &Logical) -> (WireAns, u16) {
+    match proto {
+        Proto::Http => http_throttle(ports.http, &json_body(rng, l)).await,
+        Proto::Grpc => (grpc_call(ports.grpc, l).await, 0),
+        Proto::Resp => match RespConn::open(ports.resp).await {
+            Ok(mut c) => (resp_answer(c.call(&resp_command(rng, l)).await), 0),
+            Err(e) => (WireAns::Broken(e), 0),
+        },
+    }
+}
+
+/// what happened around a SIGTERM: violations (property, what, transcript lines) and a few numbers
+#[derive(Default)]
+struct ShutdownReport {
+    viol: Vec<(String, String, Vec<String>)>,
+    in_flight_clients: u64,
+    answered_before: u64,
+    answered_after: u64,
+    failed: u64,
+    exit_ms: u64,
+}
+
+/// SIGTERM while 20..50 clients - on every enabled protocol, each on a connection of its own - have a request in
+/// flight at any moment.  What main.rs promises: the transports stop, the process ends (about 100 ms later) with
+/// status 0.  So every request is answered with a decision of the limiter or not at all (connection error / error
+/// reply): an exhausted key is never allowed, a key with burst 3 admits 3 in all, a key that is never short of tokens
+/// is never denied; and the process is gone within 5 s.
+async fn graceful_shutdown(mut child: ChildGuard, ports: Ports, enabled: [bool; 3], mut rng: Rng, tag: String, launch: String) -> ShutdownReport {
+    use std::sync::atomic::{AtomicBool, Ordering::SeqCst};
+    let mut rep = ShutdownReport::default();
+    let Some(pid) = child.pid() else { return rep };
+    let protos: Vec<Proto> = PERMS[0].into_iter().filter(|p| enabled[*p as usize]).collect();
+    let kx = format!("{tag}_term_exhausted");
+    let kf = format!("{tag}_term_fresh");
+    let kg = format!("{tag}_term_free");
+    let lx = Logical { key: kx.clone(), b: 1, c: 1, p: 3600, q: Some(1) };
+    let lf = Logical { key: kf.clone(), b: 3, c: 1, p: 3600, q: Some(1) };
+    let lg = Logical { key: kg.clone(), b: 1_000_000, c: 1_000_000, p: 1, q: Some(1) };
+    let mut log = vec![format!("# {launch}")];
+    let (a, _) = simple_request(&ports, &mut rng, protos[0], &lx).await;
+    log.push(format!("# key {kx:?} (burst 1, 1 per 3600 s) exhausted beforehand over {:?}: {}", protos[0], a.show()));
+    let nclients = rng.range(20, 50) as usize;
+    rep.in_flight_clients = nclients as u64;
+    let signalled = Arc::new(AtomicBool::new(false));
+    let mut hs = vec![];
+    for ci in 0..nclients {
+        let proto = protos[ci % protos.len()];
+        let l = match ci % 4 {
+            0 => lx.clone(),
+            1 => lf.clone(),
+            _ => lg.clone(),
+        };
+        let mut r = rng.fork();
+        let signalled = Arc::clone(&signalled);
+        hs.push(tokio::spawn(async move {
+            // (kind of key, answer, the SIGTERM had been sent when the request was started)
+            let mut got: Vec<(usize, WireAns, bool)> = vec![];
+            let kind = ci % 4;
+            let t_end = Instant::now() + Duration::from_secs(4);
+            match proto {
+                Proto::Http => {
+                    let Ok(mut c) = crate::feat::HttpConn::open(ports.http).await else { return (proto, got) };
+                    while Instant::now() < t_end {
+                        let after = signalled.load(SeqCst);
+                        let body = json_body(&mut r, &l);
+                        let req = crate::feat::request_pieces(&mut r, "POST", "/throttle", Some(body.as_bytes()), &crate::feat::Style::plain()).concat();
+                        let resp = match c.send(&req).await {
+                            Ok(()) => c.response(Duration::from_secs(3)).await,
+                            Err(e) => Err(e),
+                        };
+                        let (a, _) = http_answer(resp.map(|x| (x.status, x.body)));
+                        let stop = !matches!(a, WireAns::Ok(..));
+                        got.push((kind, a, after));
+                        if stop {
+                            break;
+                        }
+                    }
+                }
+                Proto::Grpc => {
+                    let Ok(mut g) = doc_grpc_connect(ports.grpc).await else { return (proto, got) };
+                    while Instant::now() < t_end {
+                        let after = signalled.load(SeqCst);
+                        let a = match tokio::time::timeout(Duration::from_secs(3), doc_grpc_send(&mut g, &l)).await {
+                            Ok(a) => a,
+                            Err(_) => WireAns::Broken("no answer within 3 s".into()),
+                        };
+                        let stop = !matches!(a, WireAns::Ok(..));
+                        got.push((kind, a, after));
+                        if stop {
+                            break;
+                        }
+                    }
+                }
+                Proto::Resp => {
+                    let Ok(mut c) = RespConn::open(ports.resp).await else { return (proto, got) };
+                    while Instant::now() < t_end {
+                        let after = signalled.load(SeqCst);
+                        let a = match tokio::time::timeout(Duration::from_secs(3), c.call(&resp_command(&mut r, &l))).await {
+                            Ok(x) => resp_answer(x),
+                            Err(_) => WireAns::Broken("no reply within 3 s".into()),
+                        };
+                        let stop = !matches!(a, WireAns::Ok(..));
+                        got.push((kind, a, after));
+                        if stop {
+                            break;
+                        }
+                    }
+                }
+            }
+            (proto, got)
+        }));
+    }
+    // 48 more RESP connections that keep PIPELINING unit requests on the exhausted key (32 commands per write): whatever
+    // reply arrives before such a connection closes is a denial
+    let mut pipes = vec![];
+    if enabled[Proto::Resp as usize] {
+        for _ in 0..48 {
+            let mut r = rng.fork();
+            let l = lx.clone();
+            let signalled = Arc::clone(&signalled);
+            pipes.push(tokio::spawn(async move {
+                // (replies that say allowed, replies in all, replies after the signal)
+                let (mut allowed, mut replies, mut after) = (0u64, 0u64, 0u64);
+                let mut sample: Option<String> = None;
+                let Ok(mut c) = RespConn::open(ports.resp).await else { return (allowed, replies, after, sample) };
+                let t_end = Instant::now() + Duration::from_secs(4);
+                'conn: while Instant::now() < t_end {
+                    let mut bytes = vec![];
+                    for _ in 0..32 {
+                        bytes.extend(resp_command(&mut r, &l));
+                    }
+                    for k in 0..32 {
+                        let sig = signalled.load(SeqCst);
+                        let x = match tokio::time::timeout(Duration::from_secs(3), c.call(if k == 0 { &bytes } else { b"" })).await {
+                            Ok(x) => x,
+                            Err(_) => break 'conn,
+                        };
+                        match resp_answer(x) {
+                            WireAns::Broken(_) => break 'conn,
+                            a => {
+                                replies += 1;
+                                if sig {
+                                    after += 1;
+                                }
+                                if matches!(a, WireAns::Ok(true, ..)) {
+                                    allowed += 1;
+                                    if sample.is_none() {
+                                        sample = Some(format!("{}{}", a.show(), if sig { " (read after the SIGTERM was sent)" } else { "" }));
+                                    }
+                                }
+                            }
+                        }
+                    }
+                }
+                (allowed, replies, after, sample)
+            }));
+        }
+    }
+    tokio::time::sleep(Duration::from_millis(rng.range(60, 160) as u64)).await;
+    signalled.store(true, SeqCst);
+    let t_sig = Instant::now();
+    let delivered = signal(pid, libc::SIGTERM);
+    // the process must end by itself
+    let mut status: Option<std::process::ExitStatus> = None;
+    while t_sig.elapsed() < Duration::from_secs(5) {
+        if let Some(c) = child.0.as_mut() {
+            if let Ok(Some(st)) = c.try_wait() {
+                status = Some(st);
+                break;
+            }
+        }
+        tokio::time::sleep(Duration::from_millis(5)).await;
+    }
+    rep.exit_ms = t_sig.elapsed().as_millis() as u64;
+    log.push(format!("# {nclients} clients ({protos:?} in turn, a connection each) sending one request after the other on keys {kx:?} (exhausted), {kf:?} (fresh, burst 3), {kg:?} (burst 1000000, 1000000 per second); SIGTERM {} after they had started; process status {} ms later: {}", if delivered { "sent" } else { "NOT DELIVERED" }, rep.exit_ms, status.map(|s| s.to_string()).unwrap_or("still running".into())));
+    match status {
+        None => rep.viol.push(("C11".into(), "5 s after SIGTERM the server process is still running (main.rs: stop the transports, wait 100 ms, exit)".into(), log.clone())),
+        Some(st) if !st.success() => rep.viol.push(("C11".into(), format!("after SIGTERM the server process ended with `{st}`, not with status 0: no graceful shutdown"), log.clone())),
+        _ => {}
+    }
+    drop(child); // (kills it if it is still there: the clients below must not wait for it)
+    let mut fresh_allowed = 0u64;
+    let mut bad: Vec<String> = vec![];
+    let mut summary: Vec<String> = vec![];
+    for h in hs {
+        let Ok((proto, got)) = h.await else { continue };
+        let mut line = vec![];
+        for (kind, a, after) in got {
+            match &a {
+                WireAns::Ok(al, lim, rem, _, _) => {
+                    if after { rep.answered_after += 1 } else { rep.answered_before += 1 }
+                    let fine = match kind {
+                        0 => !*al && *lim == 1 && *rem == 0,
+                        1 => {
+                            if *al {
+                                fresh_allowed += 1;
+                            }
+                            *lim == 3 && (0..3).contains(rem) && (*al || *rem == 0)
+                        }
+                        _ => *al && *lim == 1_000_000,
+                    };
+                    if !fine {
+                        bad.push(format!("{proto:?} on the {} key{}: {}", ["exhausted (burst 1)", "fresh (burst 3)", "never-short (burst 1000000)", "never-short (burst 1000000)"][kind], if after { " (request started after the SIGTERM)" } else { "" }, a.show()));
+                    }
+                }
+                _ => rep.failed += 1,
+            }
+            if line.len() < 6 {
+                line.push(format!("{}{}", if after { "*" } else { "" }, match &a { WireAns::Err(e) => format!("err({})", e.chars().take(60).collect::<String>()), a => a.show() }));
+            }
+        }
+        if summary.len() < 12 {
+            summary.push(format!("# {proto:?}: {}", line.join(" ")));
+        }
+    }
+    log.extend(summary);
+    let (mut p_allowed, mut p_replies, mut p_after) = (0u64, 0u64, 0u64);
+    let mut p_sample = None;
+    for h in pipes {
+        if let Ok((a, n, af, s)) = h.await {
+            p_allowed += a;
+            p_replies += n;
+            p_after += af;
+            p_sample = p_sample.or(s);
+        }
+    }
+    rep.answered_after += p_after;
+    rep.answered_before += p_replies - p_after;
+    if p_replies > 0 {
+        log.push(format!("# 48 RESP connections pipelining unit requests on the exhausted key {kx:?} (32 per write): {p_replies} replies, {p_after} of them read after the SIGTERM was sent, {p_allowed} say allowed"));
+    }
+    if p_allowed > 0 {
+        rep.viol.push(("C09".into(), format!("an exhausted key (burst 1, 1 per 3600 s) hammered over 48 pipelining RESP connections while the server gets a SIGTERM: {p_allowed} of {p_replies} replies say ALLOWED (e.g. {}) - a server that is going down must not fabricate decisions", p_sample.unwrap_or_default()), log.clone()));
+    }
+    if !bad.is_empty() {
+        rep.viol.push(("C09".into(), format!("around a SIGTERM with requests in flight {} answers are not decisions of the limiter (an exhausted key allowed / a key that is never short of tokens denied / wrong limit): {}", bad.len(), bad.iter().take(4).cloned().collect::<Vec<_>>().join("; ")), log.clone()));
+    }
+    if fresh_allowed > 3 {
+        rep.viol.push(("C09".into(), format!("around a SIGTERM with requests in flight a fresh key with burst 3 (1 per 3600 s) was allowed {fresh_allowed} times"), log.clone()));
+    }
+    rep
+}
+
+fn merge_shutdown(rep: ShutdownReport, out: &mut Out) {
+    out.bump("sigterm_shutdowns");
+    out.add("sigterm_clients_in_flight", rep.in_flight_clients);
+    out.add("sigterm_requests_answered_before", rep.answered_before);
+    out.add("sigterm_requests_answered_after_the_signal", rep.answered_after);
+    out.add("sigterm_requests_failed", rep.failed);
+    out.add("ms_sigterm_to_exit", rep.exit_ms);
+    for (p, w, r) in rep.viol {
+        out.violation(&p, w, r);
+    }
+}
+
+/// (g1) instances with one or two of the three transports: the enabled ones share one limiter, the ports of the others
+/// refuse connections, their counters stay 0; every other instance is configured through the environment; each ends
+/// with a SIGTERM while requests are in flight
+async fn partial_transports(bin: &str, n: usize, rng: &mut Rng, out: &mut Out) {
+    let mut subsets: Vec<[bool; 3]> = vec![[true, false, false], [false, true, false], [false, false, true], [true, true, false], [true, false, true], [false, true, true]];
+    for i in (1..subsets.len()).rev() {
+        let j = rng.below(i as u64 + 1) as usize;
+        subsets.swap(i, j);
+    }
+    let count = (n / 10).clamp(2, 6);
+    for (si, enabled) in subsets.into_iter().take(count).enumerate() {
+        let via_env = si % 2 == 1;
+        let decoy = si % 3 == 0;
+        let store = rng.pick(&["periodic", "adaptive", "probabilistic"]);
+        let opts = vec![("--store".to_string(), store.to_string()), ("--log-level".to_string(), rng.pick(&["error", "info", "debug"]).to_string())];
+        let Some((mut child, ports, launch)) = launch_custom(bin, enabled, &opts, via_env, decoy && !via_env, out).await else { continue };
+        out.bump("partial_transport_instances");
+        let names: Vec<&str> = (0..3).filter(|i| enabled[*i]).map(|i| TRANSPORT_NAMES[i]).collect();
+        let mut log = vec![format!("# {launch}"), format!("# enabled transports: {names:?}{}", if via_env { " (configured through THROTTLECRAB_* variables)" } else { "" })];
+        let plist = [ports.http, ports.grpc, ports.resp];
+        // the ports of the transports that are not enabled
+        for i in 0..3 {
+            if !enabled[i] {
+                let r = TcpStream::connect(("127.0.0.1", plist[i])).await;
+                log.push(format!("# connect to the configured {} port {} -> {}", TRANSPORT_NAMES[i], plist[i], match &r { Ok(_) => "accepted".to_string(), Err(e) => e.kind().to_string() }));
+                if r.is_ok() {
+                    out.violation("C09", format!("only {names:?} enabled, but the port configured for the {} transport accepts connections", TRANSPORT_NAMES[i]), log.clone());
+                }
+            }
+        }
+        // one bucket over the enabled protocols in turn
+        let protos: Vec<Proto> = PERMS[0].into_iter().filter(|p| enabled[*p as usize]).collect();
+        let b = rng.range(2, 5);
+        let key = format!("part{si}_shared");
+        let mut sent = [0u64; 3];
+        let mut denied = 0u64;
+        for i in 0..(b + 2) {
+            let proto = protos[(i as usize + si) % protos.len()];
+            let l = Logical { key: key.clone(), b, c: 1, p: 3600, q: Some(1) };
+            let (a, _) = simple_request(&ports, rng, proto, &l).await;
+            sent[proto as usize] += 1;
+            log.push(format!("# request {} on key {key:?} (burst {b}) over {proto:?} -> {}", i + 1, a.show()));
+            out.bump("partial_transport_requests");
+            let (wa, wr) = (i < b, (b - 1 - i).max(0));
+            if !wa {
+                denied += 1;
+            }
+            if !matches!(a, WireAns::Ok(al, lim, rem, _, _) if al == wa && lim == b && rem == wr) {
+                let prop = if matches!(a, WireAns::Ok(..)) { "C09" } else { "C11" };
+                out.violation(prop, format!("instance with only {names:?} enabled: request {} on one bucket (burst {b}) over {proto:?} answered {}, want ok,{},{b},{wr},_,_", i + 1, a.show(), wa as u8), log.clone());
+            }
+        }
+        if enabled[0] {
+            match crate::feat::scrape_counters(ports.http).await {
+                Some(c) => {
+                    log.push(format!("# GET /metrics: total {} http {} grpc {} redis {} allowed {} denied {} errors {}", c[0], c[1], c[2], c[3], c[4], c[5], c[6]));
+                    if [c[1], c[2], c[3]] != sent || c[5] != denied || c[0] != c[1] + c[2] + c[3] || c[0] != c[4] + c[5] + c[6] {
+                        out.violation("C15", format!("instance with only {names:?} enabled: /metrics shows http {} grpc {} redis {} denied {}, the clients sent {} / {} / {} requests and were denied {denied} times (a transport that is not enabled counts nothing)", c[1], c[2], c[3], c[5], sent[0], sent[1], sent[2]), log.clone());
+                    }
+                }
+                None => out.violation("C15", format!("instance with only {names:?} enabled: GET /metrics failed"), log.clone()),
+            }
+        }
+        for i in 0..3 {
+            if !enabled[i] && TcpStream::connect(("127.0.0.1", plist[i])).await.is_ok() {
+                out.violation("C09", format!("only {names:?} enabled, but after some traffic the port configured for the {} transport accepts connections", TRANSPORT_NAMES[i]), log.clone());
+            }
+        }
+        if let Some(st) = child.exited() {
+            out.violation("C11", format!("instance with only {names:?} enabled ended by itself ({st})"), log.clone());
+            continue;
+        }
+        let rep = graceful_shutdown(child, ports, enabled, rng.fork(), format!("part{si}"), launch).await;
+        merge_shutdown(rep, out);
+    }
+}
+
+/// GET /metrics: (counters, top_denied_keys samples as (key, value))
+async fn scrape_full(ports: &Ports) -> Option<([u64; 7], Vec<(String, String)>, u64)> {
+    match http_raw(ports.http, b"GET /metrics HTTP/1.1\r\nHost: x\r\nConnection: close\r\n\r\n").await {
+        Ok((200, text)) => {
+            let mentions = text.split('\n').filter(|l| l.contains("throttlecrab_top_denied_keys")).count() as u64;
+            Some((crate::feat::parse_counters(&text)?, top_denied_lines(&text), mentions))
+        }
+        _ => None,
+    }
+}
+
+/// (g3) `--max-denied-keys 5000 / 10000`: /metrics scraped again and again within a few milliseconds, traffic (denials
+/// included) in between: every scrape shows everything that was answered before it (C15) and lists every key denied so
+/// far with its count (C16).  (g4) `--store-capacity 4 / 0` with `--max-denied-keys 50`: 12 distinct keys denied, all 12
+/// are listed - the report has nothing to do with the store's capacity (C16).  (g5) `--max-denied-keys 0`: keys are
+/// keys all the same - two fresh keys with burst 1 are both admitted over HTTP and found exhausted over RESP / gRPC.
+/// Every other instance is configured through the environment; each ends with a SIGTERM under load.
+async fn special_instances(bin: &str, rng: &mut Rng, out: &mut Out) {
+    let o = |pairs: &[(&str, String)]| -> Vec<(String, String)> { pairs.iter().map(|(a, b)| (a.to_string(), b.clone())).collect() };
+    // (what, options, via_env)
+    let specs: Vec<(&str, Vec<(String, String)>, bool)> = vec![
+        ("fresh-scrapes", o(&[("--max-denied-keys", "5000".into()), ("--log-level", "error".into())]), false),
+        ("fresh-scrapes", o(&[("--max-denied-keys", "10000".into()), ("--store", "adaptive".into())]), true),
+        ("tracker-vs-capacity", o(&[("--store-capacity", "4".into()), ("--max-denied-keys", "50".into())]), true),
+        ("tracker-vs-capacity", o(&[("--store-capacity", "0".into()), ("--max-denied-keys", "50".into()), ("--store", rng.pick(&["probabilistic", "adaptive"]).to_string())]), false),
+        ("no-tracking", o(&[("--max-denied-keys", "0".into())]), rng.chance(1, 2)),
+    ];
+    for (si, (what, opts, via_env)) in specs.into_iter().enumerate() {
+        let Some((mut child, ports, launch)) = launch_custom(bin, [true, true, true], &opts, via_env, false, out).await else { continue };
+        out.bump(&format!("special_instances_{}", what.replace('-', "_")));
+        let mut log = vec![format!("# {launch}")];
+        let mut sent = [0u64; 3];
+        let mut denied_total = 0u64;
+        let mut denied_keys: BTreeMap<String, u64> = BTreeMap::new();
+        let mut step = 0usize;
+        // one request; the tally follows what the client is told
+        macro_rules! req {
+            ($key:expr, $b:expr, $proto:expr) => {{
+                let l = Logical { key: $key.clone(), b: $b, c: 1, p: 3600, q: Some(1) };
+                let (a, st) = simple_request(&ports, rng, $proto, &l).await;
+                let counted = match $proto {
+                    Proto::Http => st == 200 || st == 500,
+                    _ => !matches!(a, WireAns::Broken(_)),
+                };
+                if counted {
+                    sent[$proto as usize] += 1;
+                }
+                if let WireAns::Ok(false, ..) = a {
+                    denied_total += 1;
+                    *denied_keys.entry($key.clone()).or_insert(0) += 1;
+                }
+                log.push(format!("# {:?} key {:?} burst {} -> {}", $proto, $key, $b, a.show()));
+                step += 1;
+                a
+            }};
+        }
+        match what {
+            "fresh-scrapes" => {
+                let mut last_scrape = Instant::now();
+                for round in 0..4usize {
+                    // two keys denied (once and twice), a few requests allowed, over all protocols
+                    for k in 0..2usize {
+                        let key = format!("fresh{si}_{round}_{k} \"é\"");
+                        for j in 0..(2 + k) {
+                            let proto = PERMS[0][(round + k + j) % 3];
+                            let a = req!(key, 1i64, proto);
+                            let good = if j == 0 { matches!(a, WireAns::Ok(true, 1, 0, ..)) } else { matches!(a, WireAns::Ok(false, 1, 0, ..)) };
+                            if !good {
+                                out.violation("C09", format!("request {} on fresh key {key:?} (burst 1) answered {}", j + 1, a.show()), log.clone());
+                            }
+                        }
+                    }
+                    for j in 0..rng.range(1, 4) as usize {
+                        let key = format!("fresh{si}_{round}_free");
+                        let _ = req!(key, 1000i64, PERMS[0][(round + j) % 3]);
+                    }
+                    let gap = last_scrape.elapsed().as_millis();
+                    let Some((c, top, _)) = scrape_full(&ports).await else {
+                        out.violation("C15", "GET /metrics failed".into(), log.clone());
+                        break;
+                    };
+                    last_scrape = Instant::now();
+                    log.push(format!("# GET /metrics {gap} ms after the scrape before it: total {} http {} grpc {} redis {} allowed {} denied {} errors {}; {} top_denied_keys samples", c[0], c[1], c[2], c[3], c[4], c[5], c[6], top.len()));
+                    out.bump("fresh_scrapes");
+                    out.add("ms_between_fresh_scrapes", gap as u64);
+                    if [c[1], c[2], c[3]] != sent || c[5] != denied_total || c[0] != c[1] + c[2] + c[3] || c[0] != c[4] + c[5] + c[6] {
+                        out.violation("C15", format!("GET /metrics {gap} ms after the scrape before it shows http {} grpc {} redis {} denied {} (total {}), but {} / {} / {} requests had been answered by then, {denied_total} of them denied: every scrape reflects everything answered before it", c[1], c[2], c[3], c[5], c[0], sent[0], sent[1], sent[2]), log.clone());
+                        break;
+                    }
+                    let mut got = top.clone();
+                    let mut want: Vec<(String, String)> = denied_keys.iter().map(|(k, n)| (k.clone(), n.to_string())).collect();
+                    got.sort();
+                    want.sort();
+                    if got != want {
+                        out.violation("C16", format!("GET /metrics {gap} ms after the scrape before it lists {} denied keys {:?}, the clients were denied on {} keys so far: {:?}", got.len(), got.iter().take(12).collect::<Vec<_>>(), want.len(), want.iter().take(12).collect::<Vec<_>>()), log.clone());
+                        break;
+                    }
+                }
+            }
+            "tracker-vs-capacity" => {
+                for k in 0..12usize {
+                    let key = format!("cap{si}_key{k}");
+                    for j in 0..2usize {
+                        let a = req!(key, 1i64, PERMS[0][(k + j) % 3]);
+                        let good = if j == 0 { matches!(a, WireAns::Ok(true, 1, 0, ..)) } else { matches!(a, WireAns::Ok(false, 1, 0, ..)) };
+                        if !good {
+                            out.violation("C09", format!("request {} on fresh key {key:?} (burst 1) answered {} - a small --store-capacity is a sizing hint, not a limit", j + 1, a.show()), log.clone());
+                        }
+                    }
+                }
+                match scrape_full(&ports).await {
+                    Some((c, top, _)) => {
+                        log.push(format!("# GET /metrics: total {} denied {}; top_denied_keys: {:?}", c[0], c[5], top));
+                        let mut got = top.clone();
+                        let mut want: Vec<(String, String)> = denied_keys.iter().map(|(k, n)| (k.clone(), n.to_string())).collect();
+                        got.sort();
+                        want.sort();
+                        if got != want {
+                            out.violation("C16", format!("--max-denied-keys 50 and 12 distinct keys denied once each: /metrics lists {} of them ({:?}) - the report is bounded by --max-denied-keys, not by the store's capacity", got.len(), got.iter().take(12).collect::<Vec<_>>()), log.clone());
+                        }
+                        if [c[1], c[2], c[3]] != sent || c[5] != denied_total {
+                            out.violation("C15", format!("/metrics shows http {} grpc {} redis {} denied {}, the clients got {} / {} / {} answers, {denied_total} of them denials", c[1], c[2], c[3], c[5], sent[0], sent[1], sent[2]), log.clone());
+                        }
+                    }
+                    None => out.violation("C15", "GET /metrics failed".into(), log.clone()),
+                }
+            }
+            _ => {
+                // keys are keys with the denied-key tracking switched off
+                let keys = [format!("nt{si}_a"), format!("nt{si}_b"), String::new()];
+                for (k, key) in keys.iter().enumerate() {
+                    let a = req!(key, 1i64, Proto::Http);
+                    if !matches!(a, WireAns::Ok(true, 1, 0, ..)) {
+                        out.violation("C12", format!("--max-denied-keys 0: the first HTTP request on fresh key {key:?} (burst 1; the {} fresh key in a row) answered {}, want ok,1,1,0,_,_ as on RESP and gRPC - every key has a budget of its own", ["first", "second", "third"][k], a.show()), log.clone());
+                    }
+                }
+                for (k, key) in keys.iter().enumerate() {
+                    for proto in [PERMS[0][1 + k % 2], Proto::Http] {
+                        let a = req!(key, 1i64, proto);
+                        if !matches!(a, WireAns::Ok(false, 1, 0, ..)) {
+                            out.violation("C09", format!("--max-denied-keys 0: key {key:?} (burst 1) was used up over HTTP, a request over {proto:?} answered {}, want ok,0,1,0,_,_", a.show()), log.clone());
+                        }
+                    }
+                }
+                match scrape_full(&ports).await {
+                    Some((c, _, mentions)) => {
+                        if mentions != 0 || [c[1], c[2], c[3]] != sent || c[5] != denied_total {
+                            out.violation("C15", format!("--max-denied-keys 0: /metrics has {mentions} lines about top_denied_keys (want none), http {} grpc {} redis {} denied {}; the clients got {} / {} / {} answers, {denied_total} denials", c[1], c[2], c[3], c[5], sent[0], sent[1], sent[2]), log.clone());
+                        }
+                    }
+                    None => out.violation("C15", "GET /metrics failed".into(), log.clone()),
+                }
+            }
+        }
+        out.add("special_instance_requests", step as u64);
+        if let Some(st) = child.exited() {
+            out.violation("C11", format!("the server process ended by itself ({st})"), log.clone());
+            continue;
+        }
+        let rep = graceful_shutdown(child, ports, [true, true, true], rng.fork(), format!("spec{si}"), launch).await;
+        merge_shutdown(rep, out);
+    }
+}
+
+/// everything of (g), run NEXT TO the ordinary instances: its own processes, its own output (merged at the end)
+async fn lifecycle(bin: String, n: usize, mut rng: Rng) -> Out {
+    let mut out = Out::default();
+    let t_g = Instant::now();
+    let tasks = store_tunings(&bin, &mut rng, &mut out).await;
+    partial_transports(&bin, n, &mut rng, &mut out).await;
+    out.add("ms_partial_transports", t_g.elapsed().as_millis() as u64);
+    let t_s = Instant::now();
+    special_instances(&bin, &mut rng, &mut out).await;
+    out.add("ms_special_instances", t_s.elapsed().as_millis() as u64);
+    let mut results = vec![];
+    for t in tasks {
+        if let Ok(r) = t.await {
+            results.push(r);
+        }
+    }
+    judge_store_tunings(results, &mut out);
+    out.add("ms_lifecycle", t_g.elapsed().as_millis() as u64);
+    out
+}
+
+/// one step of the store-tuning script: what was sent and what came back
+#[derive(Clone, Debug)]
+struct ScriptStep {
+    what: String,
+    ans: WireAns,
+    /// judged against the reference instance (false: depends on sub-second timing that was not met)
+    compare: bool,
+}
+
+/// The same request sequence for every store configuration (g2): slow buckets with quantities 0..5, a bucket of 1 token
+/// per second that refills during a pause of 2.6 s, 40 short-lived keys that expire during the pause (so that the
+/// clean-up of a store tuned to sweep every second / every operation has something to remove) and are used again.
+async fn store_script(ports: Ports, mut rng: Rng, tag: String) -> Vec<ScriptStep> {
+    let mut steps: Vec<ScriptStep> = vec![];
+    let mut conn: Option<RespConn> = None;
+    let mut i = 0usize;
+    // (protocols in rotation; RESP on one kept connection)
+    let mut send = async |l: Logical, steps: &mut Vec<ScriptStep>, compare: bool, rng: &mut Rng| {
+        let proto = PERMS[0][i % 3];
+        i += 1;
+        let a = match proto {
+            Proto::Resp => {
+                if conn.is_none() {
+                    conn = RespConn::open(ports.resp).await.ok();
+                }
+                match conn.as_mut() {
+                    Some(c) => resp_answer(c.call(&resp_command(rng, &l)).await),
+                    None => WireAns::Broken("connect failed".into()),
+                }
+            }
+            p => simple_request(&ports, rng, p, &l).await.0,
+        };
+        steps.push(ScriptStep { what: format!("{proto:?} {}", describe(&l)), ans: a, compare });
+    };
+    let ka = format!("{tag}_slow");
+    let kq = format!("{tag}_quantities");
+    let ke = format!("{tag}_per_second");
+    for _ in 0..5 {
+        send(Logical { key: ka.clone(), b: 3, c: 1, p: 3600, q: Some(1) }, &mut steps, true, &mut rng).await;
+    }
+    for q in [3i64, 0, 4, 5, 3, 1] {
+        send(Logical { key: kq.clone(), b: 10, c: 2, p: 3600, q: Some(q) }, &mut steps, true, &mut rng).await;
+    }
+    let t0 = Instant::now();
+    let at = steps.len();
+    for _ in 0..3 {
+        send(Logical { key: ke.clone(), b: 2, c: 1, p: 1, q: Some(1) }, &mut steps, true, &mut rng).await;
+    }
+    if t0.elapsed() > Duration::from_millis(600) {
+        // too slow for "two tokens, the third request within the same second"
+        for s in &mut steps[at..] {
+            s.compare = false;
+        }
+    }
+    let t1 = Instant::now();
+    let at = steps.len();
+    for f in 0..40 {
+        send(Logical { key: format!("{tag}_short_lived_{f}"), b: 1, c: 1, p: 1, q: Some(1) }, &mut steps, true, &mut rng).await;
+    }
+    let fill_ms = t1.elapsed().as_millis();
+    let _ = at;
+    tokio::time::sleep(Duration::from_millis(2600)).await;
+    // after the pause: everything that refills within a second is full again, the slow buckets are where they were
+    send(Logical { key: ke.clone(), b: 2, c: 1, p: 1, q: Some(1) }, &mut steps, true, &mut rng).await;
+    for f in 0..40 {
+        send(Logical { key: format!("{tag}_short_lived_{f}"), b: 1, c: 1, p: 1, q: Some(1) }, &mut steps, fill_ms < 1500, &mut rng).await;
+    }
+    send(Logical { key: ka.clone(), b: 3, c: 1, p: 3600, q: Some(1) }, &mut steps, true, &mut rng).await;
+    send(Logical { key: kq.clone(), b: 10, c: 2, p: 3600, q: Some(1) }, &mut steps, true, &mut rng).await;
+    send(Logical { key: format!("{tag}_new_after_the_pause"), b: 2, c: 1, p: 3600, q: Some(1) }, &mut steps, true, &mut rng).await;
+    steps
+}
+
+/// (g2) every store type with non-default tuning flags, small values included, on the command line or through the
+/// environment: the decisions are those of the default configuration for the same request sequence
+async fn store_tunings(bin: &str, rng: &mut Rng, out: &mut Out) -> Vec<tokio::task::JoinHandle<(String, Vec<ScriptStep>, Option<ShutdownReport>)>> {
+    let o = |pairs: &[(&str, &str)]| -> Vec<(String, String)> { pairs.iter().map(|(a, b)| (a.to_string(), b.to_string())).collect() };
+    let cap_small = rng.pick(&["1", "2", "16"]);
+    let configs: Vec<(Vec<(String, String)>, bool)> = vec![
+        (vec![], false), // the reference: every default
+        (o(&[("--store", "periodic"), ("--store-cleanup-interval", "1"), ("--store-capacity", cap_small)]), false),
+        (o(&[("--store", "periodic"), ("--store-cleanup-interval", "2"), ("--store-capacity", "1000")]), true),
+        (o(&[("--store", "adaptive"), ("--store-min-interval", "1"), ("--store-max-interval", "1"), ("--store-max-operations", "1"), ("--store-capacity", cap_small)]), false),
+        (o(&[("--store", "adaptive"), ("--store-min-interval", "1"), ("--store-max-interval", "2"), ("--store-max-operations", "2")]), true),
+        (o(&[("--store", "probabilistic"), ("--store-cleanup-probability", "1"), ("--store-capacity", cap_small)]), false),
+        (o(&[("--store", "probabilistic"), ("--store-cleanup-probability", "2")]), true),
+        (o(&[("--store", "probabilistic"), ("--store-cleanup-probability", "3"), ("--store-capacity", "1"), ("--buffer-size", "1")]), false),
+        (o(&[("--store", "adaptive"), ("--store-max-operations", "3"), ("--buffer-size", "2"), ("--max-denied-keys", "1")]), true),
+    ];
+    let mut tasks = vec![];
+    for (ci, (opts, via_env)) in configs.into_iter().enumerate() {
+        let Some((child, ports, launch)) = launch_custom(bin, [true, true, true], &opts, via_env, false, out).await else { continue };
+        out.bump("store_tuning_instances");
+        let r = rng.fork();
+        let r2 = rng.fork();
+        tasks.push(tokio::spawn(async move {
+            let mut child = child;
+            let steps = store_script(ports, r, "tune".to_string()).await;
+            let rep = if child.exited().is_none() { Some(graceful_shutdown(child, ports, [true, true, true], r2, format!("tune{ci}"), launch.clone()).await) } else { None };
+            (launch, steps, rep)
+        }));
+    }
+    tasks
+}
+
+fn judge_store_tunings(results: Vec<(String, Vec<ScriptStep>, Option<ShutdownReport>)>, out: &mut Out) {
+    let mut reference: Option<(String, Vec<ScriptStep>)> = None;
+    for (launch, steps, rep) in results {
+        match rep {
+            Some(rep) => merge_shutdown(rep, out),
+            None => out.violation("C11", "the server process ended by itself during the store-tuning script".into(), vec![format!("# {launch}")]),
+        }
+        out.add("store_tuning_requests", steps.len() as u64);
+        let transcript = |steps: &[ScriptStep], upto: usize| -> Vec<String> { steps[..=upto.min(steps.len() - 1)].iter().enumerate().map(|(i, s)| format!("# [{}] {} -> {}", i + 1, s.what, s.ans.show())).collect() };
+        match &reference {
+            None => {
+                // the reference itself: what does not depend on the store at all
+                for (i, s) in steps.iter().enumerate() {
+                    let want: Option<(bool, i64, i64)> = match i {
+                        0..=2 => Some((true, 3, 2 - i as i64)),
+                        3 | 4 => Some((false, 3, 0)),
+                        11 | 12 => Some((true, 2, 12 - i as i64)),
+                        13 => Some((false, 2, 0)),
+                        14..=53 => Some((true, 1, 0)),
+                        54 => Some((true, 2, 1)),
+                        55..=94 => Some((true, 1, 0)),
+                        95 => Some((false, 3, 0)),
+                        97 => Some((true, 2, 1)),
+                        _ => None,
+                    };
+                    if let (Some((a, l, r)), true) = (want, s.compare) {
+                        if !matches!(&s.ans, WireAns::Ok(al, lim, rem, _, _) if (*al, *lim, *rem) == (a, l, r)) {
+                            let mut t = vec![format!("# {launch}")];
+                            t.extend(transcript(&steps, i));
+                            out.violation("C09", format!("default configuration, step {} of the store script ({}): answered {}, want ok,{},{l},{r},_,_", i + 1, s.what, s.ans.show(), a as u8), t);
+                            break;
+                        }
+                    }
+                }
+                reference = Some((launch, steps));
+            }
+            Some((ref_launch, ref_steps)) => {
+                for (i, (s, r)) in steps.iter().zip(ref_steps.iter()).enumerate() {
+                    if !(s.compare && r.compare) {
+                        out.bump("store_tuning_steps_not_compared_timing");
+                        continue;
+                    }
+                    let same = match (&s.ans, &r.ans) {
+                        (WireAns::Ok(a1, l1, r1, rs1, rt1), WireAns::Ok(a2, l2, r2, rs2, rt2)) => (a1, l1, r1) == (a2, l2, r2) && (rs1 - rs2).abs() <= 1 && (rt1 - rt2).abs() <= 1,
+                        (WireAns::Err(_), WireAns::Err(_)) => true,
+                        _ => false,
+                    };
+                    if !same {
+                        let mut t = vec![format!("# {launch}"), format!("# reference: {ref_launch}")];
+                        t.extend(transcript(&steps, i));
+                        t.push(format!("# reference, step {}: {} -> {}", i + 1, r.what, r.ans.show()));
+                        out.violation("C09", format!("step {} of the same request sequence ({}): this store configuration answers {}, the default configuration {} - the stores and their tuning must not change a decision", i + 1, s.what, s.ans.show(), r.ans.show()), t);
+                        break;
+                    }
+                }
+            }
+        }
+    }
+}
+
 async fn instance(inst: usize, bin: &str, plan: &Plan, with_slow_reader: bool, n: usize, rng: &mut Rng, out: &mut Out) {
     let Plan { store, buffer, max_denied, log_level } = plan.clone();
     let descr = format!("instance {inst} store {store} buffer-size {buffer} max-denied-keys {max_denied} log-level {log_level}");
@@ -1691,6 +2527,8 @@ async fn instance(inst: usize, bin: &str, plan: &Plan, with_slow_reader: bool, n
         slow_reader(&mut cx, inst, out).await;
     }
     phase(out, "large_requests_slow_reader");
+    protocol_features(&mut cx, inst, n, out).await;
+    phase(out, "protocol_features");
     freeze(&mut cx, inst, &mut child, out).await;
     phase(out, "freeze");
     no_poison(&mut cx, inst, max_denied, log_level == "debug" || log_level == "trace", n, &mut child, out).await;
@@ -1755,9 +2593,26 @@ pub fn run(seed: u64, n: usize, out: &mut Out) {
     // the slow reader (12 .. 16 MB through one RESP connection) runs on one instance, two with 6 instances or more
     let slow_at = [rng.below(instances as u64) as usize, if instances >= 6 { rng.below(instances as u64) as usize } else { usize::MAX }];
     rt.block_on(async {
+        // (g) lifecycle and configuration: other processes, next to the ordinary instances
+        let lc = tokio::spawn(lifecycle(bin.clone(), n, rng.fork()));
         for (inst, plan) in plans.iter().enumerate() {
             instance(inst, &bin, plan, slow_at.contains(&inst), n, &mut rng, out).await;
         }
+        let t_wait = Instant::now();
+        match lc.await {
+            Ok(lo) => {
+                for (p, w, r) in lo.viol {
+                    out.violation(&p, w, r);
+                }
+                for (k, v) in lo.stats {
+                    if !k.starts_with("violations_") {
+                        out.add(&k, v);
+                    }
+                }
+            }
+            Err(e) => out.violation("C11", format!("the lifecycle checks of mode binary failed: {e}"), vec![]),
+        }
+        out.add("ms_waiting_for_lifecycle", t_wait.elapsed().as_millis() as u64);
         if let Ok(dbg) = std::env::var("TCV_SERVER_BIN_DEBUG") {
             if std::path::Path::new(&dbg).is_file() {
                 debug_instance(&dbg, &mut rng, out).await;
